@@ -73,6 +73,14 @@ func staticCodePipeline(c *Ctx, g *load.G) {
 		// split of the executed text
 		split := `strings.Split(` + execBuf + `.String(),"\n")`
 		iSplit := p.evIndex("call", iExec, func(s string) bool { return s == split })
+		elem := split + "[#1]"
+		if iSplit < 0 {
+			// the same lines as an iterator: `for line := range strings.SplitSeq(text, "\n")`
+			seq := `strings.SplitSeq(` + execBuf + `.String(),"\n")`
+			if k := p.evIndex("call", iExec, func(s string) bool { return s == seq }); k >= 0 {
+				iSplit, split, elem = k, seq, "#1"
+			}
+		}
 		if iSplit < 0 {
 			pipe = append(pipe, "the executed text is not split into lines (`"+split+"`)")
 			continue
@@ -83,7 +91,6 @@ func staticCodePipeline(c *Ctx, g *load.G) {
 			continue
 		}
 		_, hi := loopSpan(p, p[iLoop].Text)
-		elem := split + "[#1]"
 		// inside the loop: kept or dropped
 		var wrote string
 		matchFact := ""
